@@ -669,8 +669,6 @@ func Delete(ctx context.Context, scope *ReferenceScope, query parser.DeleteQuery
 		}
 	}
 
-	fileInfos := make([]*FileInfo, 0)
-	deletedCounts := make([]int, 0)
 	for k, v := range viewsToDelete {
 		if ctx.Err() != nil {
 			return nil, nil, ConvertContextError(ctx.Err())
@@ -687,7 +685,12 @@ func Delete(ctx context.Context, scope *ReferenceScope, query parser.DeleteQuery
 		if err = v.RestoreHeaderReferences(); err != nil {
 			return nil, nil, err
 		}
+	}
 
+	// Nothing can fail from here on: a statement that returns an error has published none of its tables.
+	fileInfos := make([]*FileInfo, 0)
+	deletedCounts := make([]int, 0)
+	for k, v := range viewsToDelete {
 		if v.FileInfo.IsInMemoryTable() {
 			scope.ReplaceTemporaryTable(v)
 		} else if v.FileInfo.IsFile() {
